@@ -895,4 +895,15 @@ example :
     instGet (worldRun [] ops) "3" = none := by
   decide
 
+/-- hypothesis of `c12_render_reads_registry_by_lookup_only` on two DIFFERENT registries: other slot order, and a
+    shadowed second entry for `k` — every name resolves alike -/
+example : ∀ n, lookup n ([([107], [49]), ([108], [50])] : List (Str × Str))
+    = lookup n [([108], [50]), ([107], [49]), ([107], [51])] := by
+  intro n
+  by_cases h1 : ([107] : Str) = n
+  · subst h1; decide
+  · by_cases h2 : ([108] : Str) = n
+    · subst h2; decide
+    · simp [lookup, h1, h2]
+
 end Operon.Tmpl
